@@ -121,17 +121,15 @@ class JSONPointer:
         )[1:]
 
     def _index(self, s: str) -> Union[str, int]:
-        # Reject non-zero ints that start with a zero.
-        if len(s) > 1 and s.startswith("0"):
+        # Only canonical decimal integers are array indices. `int()` alone would
+        # also accept things like "+1", " 1", "1_0", "01" and non-ASCII digits.
+        if not RE_INDEX.fullmatch(s):
             return s
 
-        try:
-            index = int(s)
-            if index < self.min_int_index or index > self.max_int_index:
-                raise JSONPointerIndexError("index out of range")
-            return index
-        except ValueError:
-            return s
+        index = int(s)
+        if index < self.min_int_index or index > self.max_int_index:
+            raise JSONPointerIndexError("index out of range")
+        return index
 
     def _getitem(self, obj: Any, key: Any) -> Any:  # noqa: PLR0912
         try:
@@ -448,6 +446,8 @@ class JSONPointer:
 
         return relative_pointer.to(self)
 
+
+RE_INDEX = re.compile(r"0|-?[1-9][0-9]*")
 
 RE_RELATIVE_POINTER = re.compile(
     r"(?P<ORIGIN>\d+)(?P<INDEX_G>(?P<SIGN>[+\-])(?P<INDEX>\d))?(?P<POINTER>.*)",
